@@ -156,6 +156,24 @@ func PrepareBuild(o buildOpts) (*Build, error) {
 		root := filepath.Join(b.Src, "gen", "internal", "tests", "thrift")
 		fs, _ := filepath.Glob(filepath.Join(root, "*.thrift"))
 		sort.Strings(fs)
+		if o.Corpus {
+			// wrapper structs that use every typedef, enum and struct of the repository's schemas
+			var plain []string
+			for _, f := range fs {
+				switch filepath.Base(f) {
+				case "nozap.thrift", "enum-text-marshal-strict.thrift": // generated with their own flags
+				default:
+					plain = append(plain, f)
+				}
+			}
+			if outp, err := runCmd(b.Src, env, "go", append([]string{"run", "./internal/zzsim/cmd/emitwrappers"}, plain...)...); err != nil {
+				return b, fmt.Errorf("emit wrapper schemas: %v %s", err, outp)
+			} else {
+				for _, w := range strings.Fields(outp) {
+					fs = append(fs, w)
+				}
+			}
+		}
 		corpora = append(corpora, corpus{"t", root, fs})
 		corpora = append(corpora, corpus{"p", filepath.Join(b.Src, "plugin"), []string{filepath.Join(b.Src, "plugin", "api.thrift")}})
 		sroot := filepath.Join(verifDir, "schemas")
